@@ -395,7 +395,16 @@ static void run_enc(uint64_t idx, Ctx& c) {
         bool can = t->canTranscodeTo(cp);
         if (can != repr) {
             if (table && cp == 0 && !can) known_or_violation(c, "table-nul-unrepresentable", "\"encoding\":" + jstr(E.xname));
-            else if (table && can && !repr) {
+            else if (table && can && !repr && cp >= 0x10000) {
+                if (t->canTranscodeTo(cp & 0xFFFF)) known_or_violation(c, "table-cantranscodeto-truncates", "\"encoding\":" + jstr(E.xname) + ",\"cp\":" + std::to_string(cp));
+                else viol("cantranscodeto", cp, "canTranscodeTo=true but the reference has no mapping");
+            } else if (!E.intrinsic && can && !repr) {
+                // ICU skips unmappable default-ignorable code points: tolerated as the known defect only when exactly that happens
+                ToRes r = x_to(t, u.data(), u.size(), 16);
+                if (!r.threw && r.out.empty() && r.eaten == u.size()) { known_or_violation(c, "icu-default-ignorable-dropped", "\"encoding\":" + jstr(E.xname) + ",\"cp\":" + std::to_string(cp)); continue; }
+                if (r.threw) fresh();
+                viol("cantranscodeto", cp, "canTranscodeTo=true but the reference has no round-trip mapping");
+            } else if (table && can && !repr) {
                 // best-fit ("fallback") mapping: only tolerated as the known defect when it is exactly a one-way mapping, i.e. the byte
                 // it produces decodes to some OTHER character
                 ToRes r = x_to(t, u.data(), u.size(), 8);
